@@ -93,6 +93,21 @@ func TestMatrix(t *testing.T) {
 				}}, "matrix:"+eng)
 			}
 		}
+		// a module that wrote into the table of an instance and then failed (or not): its entry is
+		// called right away, after further failures, and from code entered through an import
+		for _, failing := range []int{1, 0} {
+			for _, owner := range []int{0, 1} {
+				run(&Case{Engine: eng, NInst: 2, Steps: []Step{
+					{Kind: "call", Inst: owner, Fn: 0, Ops: []int{opNestGraft, opLeaf}},
+					{Kind: "graft", Inst: owner, Start: failing, K: 2},
+					{Kind: "call", Inst: owner, Fn: 0, Ops: []int{opNestGraft, opLeaf}},
+					{Kind: "call", Inst: owner, Fn: 1, Ops: []int{opUnreachable}},
+					{Kind: "call", Inst: 1, Fn: 1, Ops: []int{opNestPeer, opNestGraft, opCallback | 3<<1, opLeaf}},
+					{Kind: "graft", Inst: owner, Start: 1, K: 3},
+					{Kind: "call", Inst: owner, Fn: 0, Ops: []int{opNestGraft, opNestGraft, opLeaf}},
+				}}, "matrix-graft:"+eng)
+			}
+		}
 		// every atomic instruction at every kind of address, each followed by atomic instructions
 		// of several kinds on the same memory: from the same function object, from the other one,
 		// and from code entered through another instance's import and a host callback
